@@ -14,7 +14,7 @@ mkdir -p /tmp/mt
 if [ ! -d /tmp/mt/repo ]; then git -C /repo worktree add --detach /tmp/mt/repo HEAD >/dev/null 2>&1; fi
 git -C /tmp/mt/repo checkout -q --detach "$(git -C /repo rev-parse HEAD)"
 git -C /tmp/mt/repo checkout -q -- . && git -C /tmp/mt/repo clean -fdq
-rsync -a --delete --exclude /harness/target --exclude /lean/.lake --exclude /work --exclude /replay --exclude /.git /verif/ /tmp/mt/verif/
+rsync -a --delete --exclude /harness/target --exclude /lean/.lake --exclude /work --exclude /replay --exclude /.git ${MT_SRC:-/verif}/ /tmp/mt/verif/
 # share compiled Lean objects (copy once, then incremental)
 if [ ! -d /tmp/mt/verif/lean/.lake ]; then cp -a /verif/lean/.lake /tmp/mt/verif/lean/.lake; fi
 find /tmp/mt/verif/harness -name Cargo.toml -exec sed -i 's#path = "/repo/#path = "/tmp/mt/repo/#g' {} +
